@@ -87,6 +87,7 @@ class Run:
         self.gate_stats = {}
         self.functions_encoded = set()
         self.native_cache = {}
+        self.excl_cache = {}; self.witness_cache = {}
 
     # ------------------------------------------------------------------ spec / findings
     def load_spec(self, pid):
@@ -188,8 +189,11 @@ class Run:
 
     # ------------------------------------------------------------------ gate
     def gate(self, h, cfg, n):
+        cfg = {k: v for k, v in cfg.items() if not k.startswith('KF_')}
         try:
-            a = self.native_exe(h, cfg, 'real'); b = self.native_exe(h, cfg, 'tran')
+            extra, _ = self.exclusions(h, cfg)
+            gcfg = dict(cfg); gcfg.update({d: 1 for d in extra})   # the gate samples the domain the solver is asked about (known-defect regions excluded)
+            a = self.native_exe(h, gcfg, 'real'); b = self.native_exe(h, gcfg, 'tran')
         except Inconclusive as e:
             self.problems.append('gate build: %s' % e); return
         ra = run_cmd([a, 'gate', str(self.seed), str(n)], timeout=300)
@@ -280,8 +284,10 @@ class Run:
         wit = [p for p in props if p['description'].startswith('NMV-WITNESS')]
         other = [p for p in props if not p['description'].startswith('NMV-WITNESS')]
         bad = [p for p in other if p['status'] != 'SUCCESS']
-        if any(p['status'] not in ('SUCCESS', 'FAILURE') for p in props):
+        failed = [p for p in other if p['status'] == 'FAILURE']
+        if not failed and any(p['status'] not in ('SUCCESS', 'FAILURE') for p in props):
             return 'inconclusive', props, 'property with status other than SUCCESS/FAILURE'
+        bad = failed or bad     # a FAILURE is a counterexample even if later obligations are UNKNOWN (e.g. after an out-of-bounds access)
         if bad:
             if all('unwinding assertion' in p['description'] for p in bad):
                 return 'unwind', props, 'unwinding assertion failed (bound too small): %s' % bad[0]['property']
@@ -338,18 +344,32 @@ class Run:
             if isinstance(x, dict) and 'result' in x:
                 for p in x['result']:
                     if p['property'] == prop and p['status'] == 'FAILURE' and 'trace' in p:
+                        # inputs by call structure: every input is one call of in_u64 / in_i64 / in_bits; the drawn value is the
+                        # assignment to its local `v` (survives --slice-formula, unlike the nmv_in[] record); a value that was sliced
+                        # away is irrelevant to the failing obligation: take the lower bound `lo` if the trace shows it, else 0
+                        calls = []; cur = None
+                        for st in p['trace']:
+                            t = st.get('stepType'); fid = (st.get('function') or {}).get('identifier')
+                            if t == 'function-call' and fid in ('in_u64', 'in_i64', 'in_bits'):
+                                cur = dict(fn=fid, v=None, lo=None); calls.append(cur)
+                            elif t == 'function-return' and fid in ('in_u64', 'in_i64', 'in_bits'):
+                                cur = None
+                            elif t == 'assignment' and cur is not None and (st.get('sourceLocation') or {}).get('function') == cur['fn'] and 'binary' in st.get('value', {}):
+                                if st.get('lhs') == 'v': cur['v'] = int(st['value']['binary'], 2)
+                                elif st.get('lhs') == 'lo': cur['lo'] = int(st['value']['binary'], 2)
                         vals = {}
                         for st in p['trace']:
                             if st.get('stepType') == 'assignment':
                                 m = re.fullmatch(r'nmv_in\[(\d+)l?\]', st.get('lhs', ''))
                                 if m and 'binary' in st.get('value', {}):
                                     vals[int(m.group(1))] = int(st['value']['binary'], 2)
-                        kmax = None
-                        for st in p['trace']:
-                            if st.get('stepType') == 'assignment' and st.get('lhs') == 'nmv_k' and 'binary' in st.get('value', {}):
-                                kmax = int(st['value']['binary'], 2)
-                        n = kmax if kmax is not None else (max(vals) + 1 if vals else 0)
-                        return [vals.get(i, 0) for i in range(n)]
+                        out = []
+                        for i, c in enumerate(calls):
+                            if c['v'] is not None: out.append(c['v'])
+                            elif i in vals: out.append(vals[i])
+                            else: out.append(c['lo'] if c['lo'] is not None else 0)
+                        if not calls and vals: out = [vals.get(i, 0) for i in range(max(vals) + 1)]
+                        return out
         return None
 
     # ------------------------------------------------------------------ replay
@@ -383,20 +403,35 @@ class Run:
                        how_to_replay='./check %s --replay %s' % (self.pid, path)), open(path, 'w'), indent=1)
         return path
 
-    # ------------------------------------------------------------------ one harness configuration end to end
-    def do_config(self, h, cfg):
-        qn = self.qname(h, cfg)
-        # known findings for this harness: replay the witness; exclude the region only while it still fails
+    def exclusions(self, h, cfg):
+        """open known findings of this harness: replay each witness natively; exclude its region only while it still fails"""
+        key = (h['name'], json.dumps(cfg, sort_keys=True))
+        with LOCK:
+            if key in self.excl_cache: return self.excl_cache[key]
         extra = []; hits = []
         for f in self.findings:
             if f.get('harness') != h['name'] or f.get('status') != 'open': continue
             if f.get('configs') and not any(all(str(cfg.get(k)) == str(v) for k, v in c.items()) for c in f['configs']): continue
-            wcfg = dict(cfg); wcfg.update(f.get('witness_config', {}))
-            ok, kind, text = self.replay(h, wcfg, [int(x, 0) if isinstance(x, str) else x for x in f['witness_inputs']])
+            wcfg = {k: v for k, v in cfg.items() if not k.startswith('_')}; wcfg.update(f.get('witness_config', {}))
+            wkey = (f['id'], h['name'], json.dumps(wcfg, sort_keys=True))
+            with LOCK: known = self.witness_cache.get(wkey)
+            if known is None:
+                ok, kind, text = self.replay(h, wcfg, [int(x, 0) if isinstance(x, str) else x for x in f['witness_inputs']])
+                with LOCK: self.witness_cache[wkey] = ok
+            else: ok = known
             if ok:
-                extra.append(f['exclude_define']); hits.append(f)
+                if f['exclude_define'] not in extra: extra.append(f['exclude_define'])
+                hits.append(f)
             else:
-                log('[known] witness of %s no longer fails; region not excluded' % f['id'])
+                log('[known] witness of %s (%s) no longer fails; its region is not excluded' % (f['id'], h['name']))
+        with LOCK: self.excl_cache[key] = (extra, hits)
+        return extra, hits
+
+    # ------------------------------------------------------------------ one harness configuration end to end
+    def do_config(self, h, cfg):
+        cfg = {k: v for k, v in cfg.items() if not k.startswith('KF_')}   # exclusion macros come only from known_findings.json
+        qn = self.qname(h, cfg)
+        extra, hits = self.exclusions(h, cfg)
         rec, props, r = self.run_query(h, cfg, extra)
         rec['known_findings_excluded'] = [f['id'] for f in hits]
         with LOCK:
